@@ -12,8 +12,8 @@ import (
 
 func init() {
 	register(&propCheck{
-		ID:  "C16",
-		Run: runC16,
+		ID:    "C16",
+		Run:   runC16,
 		Level: "Static analysis (bit-lane / closed-form abstract interpretation of each range helper, every control-flow path separately, with the statement's domain as linear facts). Decides the statement: mask — on every path feasible inside 0 <= first <= last <= 31 the mask helper's result has the closed form 'last-first+1 ones starting at bit first' (shift counts proved within the word, no negative count converted to unsigned); word — both encoders of the offset/width word put the offset in bits 6..15 and width-1 in bits 0..5 with no lane overlap for offset < 1024, 1 <= width <= 64; inverse — the two decoders applied to the encoders' lanes give back offset and width exactly; range — the accessors of a range return first and last-first+1, the two constructors describe the same range (last = offset+width-1), and the range's own word encoder composes to the same lanes. A result that cannot be brought to the specified closed form is reported (violation when a side condition fails, undecided when the shape is outside the engine's language); no value is ever executed or enumerated.",
 		Assumptions: []string{
 			"Go shift semantics: a shift count >= the operand width yields 0; conversion of a negative int to an unsigned type wraps",
@@ -40,22 +40,30 @@ func runC16(w *World, r *Report) {
 		}
 		return fi
 	}
-	single := func(rule, key string, paths []*bvPath, pos string) *bvPath {
+	// feasible returns the paths that are inside the domain; a path outside the
+	// engine's language is reported. inst names a path when there are several.
+	feasible := func(rule, key string, paths []*bvPath, pos string) []*bvPath {
 		var live []*bvPath
 		for _, p := range paths {
-			live = append(live, p)
-		}
-		for _, p := range live {
 			if len(p.Undec) > 0 {
 				r.Fail(VUndecided, rule, key, "", pos, "outside the bit-level language: "+strings.Join(p.Undec, "; "))
 				return nil
 			}
+			if infeasible(p.Ctx) {
+				continue
+			}
+			live = append(live, p)
 		}
-		if len(live) != 1 {
-			r.Fail(VUndecided, rule, key, "", pos, fmt.Sprintf("%d control-flow paths where one closed form is expected", len(live)))
-			return nil
+		if len(live) == 0 {
+			r.Fail(VUndecided, rule, key, "", pos, "no feasible control-flow path inside the domain")
 		}
-		return live[0]
+		return live
+	}
+	inst := func(p *bvPath) string {
+		if len(p.Conds) == 0 {
+			return ""
+		}
+		return "path:" + strings.Join(p.Conds, "&&")
 	}
 	retBV := func(p *bvPath) (BV, bool) {
 		if len(p.Ret) < 1 || p.Ret[0] == nil || p.Ret[0].Opaque != "" || p.Ret[0].Fields != nil {
@@ -159,7 +167,7 @@ func runC16(w *World, r *Report) {
 		ctx := newBvCtx()
 		ofs := ctx.declare("ofs", 16, false, 0, 1023)
 		nb := ctx.declare("nBits", 16, false, 1, 64)
-		if p := single("word", fi.Key, w.RunBV(fi, ctx, nil, []*bvVal{{BV: ofs}, {BV: nb}}), pos); p != nil {
+		for _, p := range feasible("word", fi.Key, w.RunBV(fi, ctx, nil, []*bvVal{{BV: ofs}, {BV: nb}}), pos) {
 			if v, ok := retBV(p); !ok {
 				r.Fail(VUndecided, "word", fi.Key, "", pos, "result is not an integer value of the engine")
 			} else if d := wantWord(p.Ctx, v, "ofs", ValOf("nBits").AddC(-1)); d != "" {
@@ -177,7 +185,7 @@ func runC16(w *World, r *Report) {
 		en := ctx.declare("end", 16, false, 0, 1086)
 		ctx.facts = append(ctx.facts, Fact{L: ValOf("start"), R: ValOf("end"), Src: "first <= last"},
 			Fact{L: ValOf("end"), R: ValOf("start").AddC(63), Src: "width <= 64"})
-		if p := single("word", fi.Key, w.RunBV(fi, ctx, nil, []*bvVal{{BV: st}, {BV: en}}), pos); p != nil {
+		for _, p := range feasible("word", fi.Key, w.RunBV(fi, ctx, nil, []*bvVal{{BV: st}, {BV: en}}), pos) {
 			if v, ok := retBV(p); !ok {
 				r.Fail(VUndecided, "word", fi.Key, "", pos, "result is not an integer value of the engine")
 			} else if d := wantWord(p.Ctx, v, "start", ValOf("end").Sub(ValOf("start"))); d != "" {
@@ -200,23 +208,21 @@ func runC16(w *World, r *Report) {
 				continue
 			}
 			pos := w.Pos(fi.Decl.Pos())
-			p := single("inverse", fi.Key, w.RunBV(fi, encCtx.clone(), nil, []*bvVal{{BV: encWord}}), pos)
-			if p == nil {
-				continue
-			}
-			v, ok := retBV(p)
-			if !ok {
-				r.Fail(VUndecided, "inverse", fi.Key, "", pos, "result is not an integer value of the engine")
-				continue
-			}
-			if l := p.Ctx.linOf(v); l != nil && p.Ctx.equal(l, d.want) {
-				r.OK("inverse", fi.Key, "", pos, fmt.Sprintf("%s(encodeOfsNbits(ofs, nBits)) = %v for all ofs < 1024, 1 <= nBits <= 64", fi.Decl.Name.Name, l), true)
-			} else {
-				got := v.String()
-				if v.Why != "" {
-					got += " (" + v.Why + ")"
+			for _, p := range feasible("inverse", fi.Key, w.RunBV(fi, encCtx.clone(), nil, []*bvVal{{BV: encWord}}), pos) {
+				v, ok := retBV(p)
+				if !ok {
+					r.Fail(VUndecided, "inverse", fi.Key, "", pos, "result is not an integer value of the engine")
+					continue
 				}
-				r.Fail(VViolation, "inverse", fi.Key, "", pos, fmt.Sprintf("applied to the encoded word the result is %s, not the %s %v", got, d.what, d.want))
+				if l := p.Ctx.linOf(v); l != nil && p.Ctx.equal(l, d.want) {
+					r.OK("inverse", fi.Key, "", pos, fmt.Sprintf("%s(encodeOfsNbits(ofs, nBits)) = %v for all ofs < 1024, 1 <= nBits <= 64", fi.Decl.Name.Name, l), true)
+				} else {
+					got := v.String()
+					if v.Why != "" {
+						got += " (" + v.Why + ")"
+					}
+					r.Fail(VViolation, "inverse", fi.Key, inst(p), pos, fmt.Sprintf("applied to the encoded word the result is %s, not the %s %v", got, d.what, d.want))
+				}
 			}
 		}
 	} else {
@@ -245,28 +251,26 @@ func runC16(w *World, r *Report) {
 		}
 		pos := w.Pos(fi.Decl.Pos())
 		ctx, recv := rangeCtx()
-		p := single("range", fi.Key, w.RunBV(fi, ctx, recv, nil), pos)
-		if p == nil {
-			continue
-		}
-		v, ok := retBV(p)
-		if l := p.Ctx.linOf(v); ok && l != nil && p.Ctx.equal(l, d.want) {
-			r.OK("range", fi.Key, "", pos, fmt.Sprintf("returns %v", l), true)
-		} else {
-			got := "<not an integer>"
-			if ok {
-				got = v.String()
-				if v.Why != "" {
-					got += " (" + v.Why + ")"
+		for _, p := range feasible("range", fi.Key, w.RunBV(fi, ctx, recv, nil), pos) {
+			v, ok := retBV(p)
+			if l := p.Ctx.linOf(v); ok && l != nil && p.Ctx.equal(l, d.want) {
+				r.OK("range", fi.Key, "", pos, fmt.Sprintf("returns %v", l), true)
+			} else {
+				got := "<not an integer>"
+				if ok {
+					got = v.String()
+					if v.Why != "" {
+						got += " (" + v.Why + ")"
+					}
 				}
+				r.Fail(VViolation, "range", fi.Key, inst(p), pos, fmt.Sprintf("returns %s, specified %s = %v", got, d.what, d.want))
 			}
-			r.Fail(VViolation, "range", fi.Key, "", pos, fmt.Sprintf("returns %s, specified %s = %v", got, d.what, d.want))
 		}
 	}
 	if fi := get("openflow13.NXRange.ToOfsBits", "range"); fi != nil {
 		pos := w.Pos(fi.Decl.Pos())
 		ctx, recv := rangeCtx()
-		if p := single("range", fi.Key, w.RunBV(fi, ctx, recv, nil), pos); p != nil {
+		for _, p := range feasible("range", fi.Key, w.RunBV(fi, ctx, recv, nil), pos) {
 			if v, ok := retBV(p); !ok {
 				r.Fail(VUndecided, "range", fi.Key, "", pos, "result is not an integer value of the engine")
 			} else if d := wantWord(p.Ctx, v, "start", ValOf("end").Sub(ValOf("start"))); d != "" {
@@ -295,20 +299,18 @@ func runC16(w *World, r *Report) {
 			}
 			av = append(av, &bvVal{BV: ctx.declare(a, 64, true, lo, hi)})
 		}
-		p := single("range", fi.Key, w.RunBV(fi, ctx, nil, av), pos)
-		if p == nil {
-			return
-		}
-		if len(p.Ret) != 1 || p.Ret[0] == nil || p.Ret[0].Fields == nil {
-			r.Fail(VUndecided, "range", fi.Key, "", pos, "the constructor does not return a range literal")
-			return
-		}
-		f := p.Ret[0].Fields
-		ls, le := p.Ctx.linOf(f["start"]), p.Ctx.linOf(f["end"])
-		if ls != nil && le != nil && p.Ctx.equal(ls, wantStart) && p.Ctx.equal(le, wantEnd) {
-			r.OK("range", fi.Key, "", pos, fmt.Sprintf("first = %v, last = %v", ls, le), true)
-		} else {
-			r.Fail(VViolation, "range", fi.Key, "", pos, fmt.Sprintf("builds first = %v, last = %v; specified first = %v, last = %v", f["start"].String(), f["end"].String(), wantStart, wantEnd))
+		for _, p := range feasible("range", fi.Key, w.RunBV(fi, ctx, nil, av), pos) {
+			if len(p.Ret) != 1 || p.Ret[0] == nil || p.Ret[0].Fields == nil {
+				r.Fail(VUndecided, "range", fi.Key, inst(p), pos, "the constructor does not return a range literal")
+				continue
+			}
+			f := p.Ret[0].Fields
+			ls, le := p.Ctx.linOf(f["start"]), p.Ctx.linOf(f["end"])
+			if ls != nil && le != nil && p.Ctx.equal(ls, wantStart) && p.Ctx.equal(le, wantEnd) {
+				r.OK("range", fi.Key, "", pos, fmt.Sprintf("first = %v, last = %v", ls, le), true)
+			} else {
+				r.Fail(VViolation, "range", fi.Key, inst(p), pos, fmt.Sprintf("on {%s} builds first = %v, last = %v; specified first = %v, last = %v", strings.Join(p.Conds, " and "), f["start"].String(), f["end"].String(), wantStart, wantEnd))
+			}
 		}
 	}
 	ctorCheck("openflow13.NewNXRange", []string{"start", "end"}, ValOf("start"), ValOf("end"))
